@@ -52,6 +52,26 @@ def bombs():
             w2.ue(cnt if field == 4 else 1)      # num_short_term_ref_pic_sets
             w2.u(1, 0).ue(cnt if field == 5 else 1).ue(0).u(1, 1)
             out.append(("H3/hevc-sps/field%d-%d" % (field, cnt), "nal-hevc", w2.bytes_rbsp(b"\x42\x01")))
+    # HEVC PPS extensions: counts of the colour mapping table (F.7.3.2.3.5) and of the depth look-up tables (I.7.3.2.3.7)
+    def hevc_pps_ext(ml, d3, scc):
+        w = B().ue(0).ue(0).u(1, 0).u(1, 0).u(3, 0).u(1, 0).u(1, 0).ue(0).ue(0).ue(0).u(1, 0).u(1, 0).u(1, 0).ue(0).ue(0)
+        w.u(1, 0).u(1, 0).u(1, 0).u(1, 0).u(1, 0).u(1, 0).u(1, 0).u(1, 0).u(1, 0).u(1, 0).ue(0).u(1, 0)
+        return w.u(1, 1).u(1, 0).u(1, ml).u(1, d3).u(1, scc).u(4, 0)
+    for cnt in (61, 62, 63, 254, 255, 256, 511, 65535, 65536, (1 << 32) - 1, 1 << 32):
+        w = hevc_pps_ext(1, 0, 0).u(1, 0).u(1, 0).ue(0).u(1, 1).ue(cnt).u(6, 1).u(6, 2).u(2, 0).u(2, 0).ue(0).ue(0).ue(0).ue(0).u(2, 0).u(2, 0).u(4, 0)
+        out.append(("H3/hevc-pps/cm-layers-%d" % cnt, "nal-hevc", w.bytes_rbsp(b"\x44\x01")))
+        w = hevc_pps_ext(1, 0, 0).u(1, 0).u(1, 0).ue(cnt).u(6, 1).u(1, 0).u(1, 0).u(1, 0)
+        out.append(("H3/hevc-pps/ref-loc-offsets-%d" % cnt, "nal-hevc", w.bytes_rbsp(b"\x44\x01")))
+        w = hevc_pps_ext(0, 0, 1).u(1, 0).u(1, 0).u(1, 1).ue(cnt).u(1, 0).ue(0).ue(0).u(8, 255).u(8, 1)
+        out.append(("H3/hevc-pps/palette-%d" % cnt, "nal-hevc", w.bytes_rbsp(b"\x44\x01")))
+    for layers in (0, 1, 63):
+        for depth in (0, 7, 8, 15):
+            w = hevc_pps_ext(0, 1, 0).u(1, 1).u(6, layers).u(4, depth).u(1, 1).u(1, 0).u(1, 1).u(16, 0xffff)
+            out.append(("H3/hevc-pps/dlt-flags-l%d-d%d" % (layers, depth), "nal-hevc", w.bytes_rbsp(b"\x44\x01")))
+            nb = depth + 8
+            for mindiff in (0, (1 << nb) - 1):
+                w = hevc_pps_ext(0, 1, 0).u(1, 1).u(6, layers).u(4, depth).u(1, 1).u(1, 0).u(1, 0).u(nb, (1 << nb) - 1).u(nb, (1 << nb) - 1).u(nb, mindiff).u(nb, 1).u(16, 0xffff)
+                out.append(("H3/hevc-pps/delta-dlt-l%d-d%d-m%d" % (layers, depth, mindiff), "nal-hevc", w.bytes_rbsp(b"\x44\x01")))
     # HEVC slice headers against the reference SPS/PPS
     for t in (1, 19, 21):
         for pid in (0, 1, 63, 1 << 16):
@@ -97,7 +117,7 @@ def lp(*nals):
 def ue_bomb_insertions(ident, kind, sps, pps, slc, hdrlen, q, seed):
     """H7: a huge Exp-Golomb code inserted at EVERY bit position of the SPS (and of the PPS) of a valid (SPS, PPS, slice)
     triple; the rest of the parameter set follows the bomb, and the later units are parsed against what was accepted.
-    Wherever a ue(v) / se(v) element starts, the parser reads 2^32-1, 2^32, 2^63 or 2^64-2 there."""
+    Wherever a ue(v) / se(v) element starts, the parser reads 2^32-1, 2^32, 2^63, 2^64-2, 255 or 65535 there."""
     def rbsp_bits(nal):
         raw, z = bytearray(), 0
         for c in nal[hdrlen:]:
@@ -113,7 +133,9 @@ def ue_bomb_insertions(ident, kind, sps, pps, slc, hdrlen, q, seed):
             bits.pop()
         return bits[:-1]                                   # without the rbsp stop bit
     bombs = [("ue-2^32-1", [0] * 32 + [1] + [0] * 32), ("ue-2^32", [0] * 32 + [1] + [0] * 31 + [1]),
-             ("ue-2^63-1", [0] * 63 + [1] + [0] * 63), ("ue-2^64-2", [0] * 63 + [1] + [1] * 63)]
+             ("ue-2^63-1", [0] * 63 + [1] + [0] * 63), ("ue-2^64-2", [0] * 63 + [1] + [1] * 63),
+             # the largest values of the narrow integer types that parsers convert counts to before looping over them
+             ("ue-255", [0] * 8 + [1] + [0] * 8), ("ue-65535", [0] * 16 + [1] + [0] * 16)]
     out = []
     for target, nal in (("sps", sps), ("pps", pps)):
         bits = rbsp_bits(nal)
